@@ -67,6 +67,11 @@ pub fn build_world(scn: &Scenario, built: &Built, layout: &Layout, faults: &[Dis
         }
     }
 
+    // xor.dat is created before the blk files in half of the worlds, after them in the other half
+    let xor_first = scn.index.order_seed & 2 == 0;
+    if !key.is_empty() && xor_first {
+        fs::write(dir.join("xor.dat"), &key).map_err(e)?;
+    }
     // directory iteration order depends on creation order on some file systems:
     // half of the extra entries are created before the blk files, half after
     for (k, x) in layout.extra_files.iter().enumerate() {
@@ -81,7 +86,16 @@ pub fn build_world(scn: &Scenario, built: &Built, layout: &Layout, faults: &[Dis
     }
     for f in &layout.files {
         let name = blk_name(f.number, f.width);
-        let path = dir.join(&name);
+        let path = if f.symlink {
+            let side = dir.parent().unwrap_or(dir).join(format!("{}-moved", dir.file_name().and_then(|n| n.to_str()).unwrap_or("data")));
+            fs::create_dir_all(&side).map_err(e)?;
+            let real = side.join(&name);
+            let _ = fs::remove_file(&real);
+            std::os::unix::fs::symlink(&real, dir.join(&name)).map_err(e)?;
+            real
+        } else {
+            dir.join(&name)
+        };
         let mut file = fs::File::create(&path).map_err(|x| format!("world: create {}: {}", path.display(), x))?;
         let mut off: u64 = 0;
         for seg in &f.segs {
@@ -150,7 +164,7 @@ pub fn build_world(scn: &Scenario, built: &Built, layout: &Layout, faults: &[Dis
         info.file_names.insert(f.number, name);
         info.file_sizes.insert(f.number, off);
     }
-    if !key.is_empty() {
+    if !key.is_empty() && !xor_first {
         fs::write(dir.join("xor.dat"), &key).map_err(e)?;
     }
     for (k, x) in layout.extra_files.iter().enumerate() {
@@ -222,7 +236,9 @@ pub fn build_world(scn: &Scenario, built: &Built, layout: &Layout, faults: &[Dis
         if place.is_none() {
             continue; // block not stored in this layout (index segment only)
         }
-        records.push(mk(&bb.hash, h, STATUS_ACTIVE, scn.chain[i].txs.len() as u64, place, &bb.bytes));
+        // block 0 has no undo data in Bitcoin Core's index
+        let st = if h == 0 { 5 | 8 } else { STATUS_ACTIVE } | scn.index.active_extra_status;
+        records.push(mk(&bb.hash, h, st, scn.chain[i].txs.len() as u64, place, &bb.bytes));
     }
     for (i, x) in scn.extras.iter().enumerate() {
         if let Some(ix) = &x.index {
